@@ -14,7 +14,7 @@ harness:
 	./.work/harness-verif consts > coq/gen/Extracted.v.new && mv coq/gen/Extracted.v.new coq/gen/Extracted.v
 
 coq: harness
-	cd coq && coq_makefile -f _CoqProject -o Makefile
+	sh tools/mkcoqproject.sh
 	cd coq && timeout 3000 make -j16
 
 checker: coq
